@@ -1247,10 +1247,30 @@ def _region_of(st, p, who):
 
 
 def _free(ex, st, a, work):
+    if conc_val(a[0]) is None:
+        return _free_symbolic(ex, st, a[0], work, 0)
     r = _region_of(st, a[0], 'free')
     if r is not None:
         r.alive = False
     return None
+
+
+def _free_symbolic(ex, st, p, work, depth):
+    """free of a pointer that is a symbolic choice among a few blocks (a chain link read back from memory): fork on its
+    possible values, one at a time"""
+    if depth > 12:
+        raise Inconclusive('free of a symbolic pointer with more than 12 possible values')
+    r, m = st.solver.check(list(st.pc))
+    if r != 'sat':
+        raise Inconclusive('free of a symbolic pointer: path condition %s' % r)
+    val = m.eval(p, model_completion=True)
+
+    def this(s):
+        rg = _region_of(s, val, 'free')
+        if rg is not None:
+            rg.alive = False
+        return None
+    return ex.fork_value(st, work, p == val, this, lambda s: _free_symbolic(ex, s, p, work, depth + 1))
 
 
 def _realloc(ex, st, a, work):
